@@ -166,6 +166,10 @@ func (it *Interp) runToCompletion(start func(g *Goroutine)) (err error) {
 	if g.exitPanic != nil {
 		return fmt.Errorf("panic: %s", g.exitPanic.msg)
 	}
+	if g.state == gBlocked {
+		// nothing can wake the main goroutine any more: the harness never returns
+		return fmt.Errorf("deadlock: main goroutine blocked forever (%s)%s", g.waitDesc, it.whereG(g))
+	}
 	return nil
 }
 
